@@ -322,3 +322,33 @@ LATE_TEARDOWN_FAILURE_WITH_FILE_BACKENDS = dict(_case(
     _p([_s("s0", [_t("t0", [], [_LOG]), _t("t1", [], [_LOG], rank=2)], teardown_suite=[_ERR])]), _cfg(2)),
     files={"backends": ["json", "junit"], "saving": "at_each_log"})
 FILE_BACKEND_CONTROLS = [LATE_FAILURE_WITH_FILE_BACKENDS, LATE_TEARDOWN_FAILURE_WITH_FILE_BACKENDS]
+
+
+# ---- several runs of ONE built project in one process (props/_multirun.py; acts guarded with `only_in_run`) -----------------
+def _only(act, r):
+    return dict(act, only_in_run=r)
+
+
+def _again(project, runs=2, n=1, **kw):
+    return dict({"project": dict(project, nb_threads=n), "strategy": "off", "gseed": 1, "interrupt": None, "fault": None,
+                 "runs": runs, "event_run": 1}, **kw)
+
+
+# the environment is down during the first run only: the second test of s0 raises AbortSuite in run 1; in run 2 nothing aborts
+AGAIN_ABORT_SUITE_THEN_CLEAN = _again(_p([
+    _s("s0", [_t("t0", script=[_LOG]), _t("t1", script=[_only({"a": "raise", "kind": "AbortSuite"}, 1)], rank=2), _t("t2", script=[_LOG], rank=3)]),
+    _s("s1", [_t("t3", script=[_LOG])], rank=2)]))
+# AbortAllTests in a setup_suite hook of the first of three runs, a failing check in the second, nothing in the third
+AGAIN_ABORT_ALL_THEN_FAILURE_THEN_CLEAN = _again(_p([
+    _s("s0", [_t("t0", script=[_LOG]), _t("t1", script=[_only({"a": "check", "ok": False}, 2)], rank=2)],
+       setup_suite={"params": [], "script": [_only({"a": "raise", "kind": "AbortAllTests"}, 1)]}, teardown_suite=[_LOG]),
+    _s("s1", [_t("t2", script=[_LOG])], rank=2)]), runs=3, n=2)
+# the abort comes in the SECOND run (from an lcc.Thread of a test with a test-scoped fixture), the first and third are clean
+AGAIN_CLEAN_ABORT_CLEAN = _again(_p([
+    _s("s0", [_t("t0", ["f0"], [{"a": "thread", "script": [_only({"a": "raise", "kind": "AbortSuite", "sub": True}, 2)]}, _LOG]),
+              _t("t1", script=[_LOG], rank=2)], suites=[_s("sub", [_t("u", script=[_LOG])])])],
+    [_f("f0", "test", [_LOG])]), runs=3)
+# interrupted first run, ordinary second run
+AGAIN_INTERRUPT_THEN_CLEAN = _again(_p([_s("s0", [_t("t0", script=[_LOG]), _t("t1", script=[_LOG], rank=2), _t("t2", script=[_LOG], rank=3)])]),
+                                    interrupt=["get", 2])
+AGAIN_CORPUS = [AGAIN_ABORT_SUITE_THEN_CLEAN, AGAIN_ABORT_ALL_THEN_FAILURE_THEN_CLEAN, AGAIN_CLEAN_ABORT_CLEAN, AGAIN_INTERRUPT_THEN_CLEAN]
